@@ -2,6 +2,7 @@
 #include "v_harness.h"
 #include "automata_contracts.h"
 #include "lltdAutomata.c"
+#include "v_nocheck_push.h"      /* harness and specification code below: no implicit checks */
 
 struct in_tab {
     struct v_cfg cfg;
